@@ -46,6 +46,13 @@ func realMain() int {
 		}
 		no, err := nat.Run(bin, os.Args[3], replay, 1)
 		fmt.Println(no.Outcome, err)
+	case "selftest":
+		n, k, err := sx.SelfTest(1, 20000, 400)
+		if err != nil {
+			fmt.Println("SELFTEST FAILED:", err)
+			return 2
+		}
+		fmt.Printf("selftest ok: %d random term pairs evaluated (simplified vs raw, 8 models each), %d proved equivalent by z3\n", n, k)
 	case "conform":
 		cmdConform(os.Args[2:])
 	default:
